@@ -1142,6 +1142,34 @@ func (c *SpecCtx) call(e *Expr, pos bool) *Term {
 			}
 		}
 		c.fail("startTrace(%s): loop not active", e.Args[0].Name)
+	case "startVal":
+		// startVal(n, v): the value local variable v had at the head of loop n, in the current iteration
+		if c.frame == nil || e.Args[0].Op != "int" || e.Args[1].Op != "id" {
+			c.fail("startVal(n, variable)")
+		}
+		for _, en := range c.frame.active {
+			if fmt.Sprint(en.ordinal) != e.Args[0].Name {
+				continue
+			}
+			var best *ssa.Alloc
+			for a := range c.frame.cellsByA {
+				if a.Comment == e.Args[1].Name && (best == nil || a.Pos() > best.Pos()) {
+					best = a
+				}
+			}
+			if best != nil {
+				switch v := en.cells[c.frame.cellsByA[best]].(type) {
+				case *Term:
+					if v.T == nil {
+						return mkT(v.Sort, v.S, c.frame.cellsByA[best].typ)
+					}
+					return v
+				case *Owned:
+					return c.x.ownedTerm(c.st, v)
+				}
+			}
+		}
+		c.fail("startVal: no such loop or variable")
 	case "noKeys":
 		// noKeys("K"): the empty set of K
 		ks, _ := x.sortOfTypeString(c.pkgPath, strArg(0))
